@@ -1,6 +1,6 @@
 //! C13 — all generated artifacts are syntactically valid and import-closed.
 use crate::driver::Compiled;
-use crate::progx::Menu;
+use crate::progx::{Menu, SCHEMA};
 use crate::sweep::{self, Ctx, Family, ShardStats};
 use crate::tsx;
 use mc_core::*;
@@ -69,11 +69,93 @@ pub fn check_artifacts(arts: &[(String, String)], ext_in_imports: bool) -> Vec<(
     fails
 }
 
+/// option sets under which every program is compiled again: (name, options, file extensions in imports)
+fn configurations(small: bool) -> Vec<(&'static str, serde_json::Value, bool)> {
+    let persisted = json!({"file": "./persisted.json", "algorithm": "md5", "include_extra_info": true});
+    let mut out = vec![("all-options", json!({"module": "commonjs", "include_file_extensions_in_import_statements": true, "no_babel_transform": true, "generated_file_header": "generated file", "persisted_documents": persisted}), true)];
+    if small {
+        out.extend([
+            ("module-commonjs", json!({"module": "commonjs"}), false),
+            ("file-extensions", json!({"include_file_extensions_in_import_statements": true}), true),
+            ("no-babel-transform", json!({"no_babel_transform": true}), false),
+            ("header", json!({"generated_file_header": "generated file"}), false),
+            ("header-with-comment-terminator", json!({"generated_file_header": "a */ b /* c"}), false),
+            ("header-with-quotes", json!({"generated_file_header": "it's \"quoted\" \\ `x` ${y}"}), false),
+            ("persisted-documents", json!({"persisted_documents": persisted}), false),
+            ("persisted-documents+file-extensions+commonjs", json!({"persisted_documents": persisted, "include_file_extensions_in_import_statements": true, "module": "commonjs"}), true),
+            ("no-babel-transform+file-extensions", json!({"no_babel_transform": true, "include_file_extensions_in_import_statements": true}), true),
+        ]);
+    }
+    out
+}
+
+/// the universe schema with a description containing comment terminators, quotes, backslashes, template
+/// syntax and line terminators in front of every type, field, argument and enum value that takes one
+pub fn hostile_schema() -> String {
+    let desc = "\"\"\"\nends */ a comment, /* opens one, 'single' \\\"double\\\" `tick` ${template} \\n backslash-n // line\n\"\"\"\n";
+    let mut out = String::new();
+    let mut in_block = false;
+    for line in SCHEMA.lines() {
+        let t = line.trim_start();
+        // drop the schema's own descriptions
+        if t.starts_with("\"\"\"") {
+            in_block = !in_block || t.len() > 3 && t.ends_with("\"\"\"");
+            if t.len() > 3 && t.ends_with("\"\"\"") {
+                in_block = false;
+            }
+            continue;
+        }
+        if in_block || t.starts_with('"') {
+            continue;
+        }
+        let indent = &line[..line.len() - t.len()];
+        let is_def = ["type ", "interface ", "union ", "enum ", "input ", "scalar "].iter().any(|k| t.starts_with(k));
+        let is_member = !indent.is_empty() && t.chars().next().is_some_and(|c| c.is_ascii_alphabetic() || c == '_');
+        if (is_def || is_member) && !t.starts_with("query:") && !t.starts_with("mutation:") {
+            for d in desc.lines() {
+                out.push_str(indent);
+                out.push_str(d);
+                out.push('\n');
+            }
+        }
+        out.push_str(line);
+        out.push('\n');
+    }
+    out
+}
+
 fn oracle(ctx: &Ctx<'_>, stats: &mut ShardStats) -> Vec<(String, String)> {
     match ctx.result {
         Compiled::Ok(arts) => {
             *stats.extra.entry("ts_files_parsed".into()).or_default() += arts.iter().filter(|a| a.0.ends_with(".ts")).count() as u64;
             let mut fails = check_artifacts(arts, false);
+            // the same program under other option sets and over the schema with hostile descriptions
+            let small = ctx.program.literals().iter().map(|l| l.1.lines().count()).sum::<usize>() <= 8;
+            let vdir = ctx.dir.with_file_name("config-variant");
+            let mut variants: Vec<(String, crate::project::Project, bool)> = configurations(small).into_iter().map(|(n, o, e)| { let mut p = ctx.program.project(); p.options = o; (format!("options:{n}"), p, e) }).collect();
+            let mut p = ctx.program.project();
+            p.schema = hostile_schema();
+            variants.push(("schema-descriptions".to_string(), p, false));
+            for (name, p, ext) in variants {
+                p.write_to(&vdir);
+                *stats.extra.entry("configurations".into()).or_default() += 1;
+                match crate::driver::compile_dir(&vdir) {
+                    Compiled::Ok(varts) => {
+                        *stats.extra.entry("ts_files_parsed".into()).or_default() += varts.iter().filter(|a| a.0.ends_with(".ts")).count() as u64;
+                        let negative_int = ctx.program.literals().iter().any(|l| l.1.contains(": -"));
+                        for (sig, what) in check_artifacts(&varts, ext) {
+                            if negative_int && sig == "ts-syntax:raw_response_type" {
+                                // the recorded response-key finding, reported for the base compile
+                                continue;
+                            }
+                            fails.push((format!("{sig}:{name}"), format!("[{name}] {what}")));
+                        }
+                    }
+                    Compiled::Diagnostics(d) => fails.push((format!("variant-rejected:{name}"), format!("accepted program is rejected under {name}: {}", d.first().cloned().unwrap_or_default().lines().next().unwrap_or("")))),
+                    Compiled::Panic(m) => fails.push((format!("variant-panic:{name}"), m)),
+                }
+            }
+            let _ = std::fs::remove_dir_all(&vdir);
             // narrow the signature of the recorded finding: a negative integer argument yields a
             // response key containing '-', which is not an identifier
             let negative_int = ctx.program.literals().iter().any(|l| l.1.contains(": -"));
@@ -115,9 +197,11 @@ pub fn main(args: &Args) -> i32 {
     ev.violations = n_new as i64;
     ev.set("evaluations", res.stats.programs)
         .set("distinct_nontrivial", res.stats.accepted)
-        .set("rule", "every program of the stated families compiled by the real compiler; every .ts artifact parsed as a TypeScript module with swc_ecma_parser, every .json with serde_json, every relative import resolved against the artifact set; non-trivial = accepted programs")
+        .set("rule", "every program of the stated families compiled by the real compiler; every .ts artifact parsed as a TypeScript module with swc_ecma_parser, every .json with serde_json, every relative import resolved against the artifact set; every accepted program again under the all-options configuration and over the schema with hostile descriptions (comment terminators, quotes, backslashes, template syntax), small programs (<= 8 literal lines) under every listed option set; non-trivial = accepted programs")
         .set("families", json!(res.families.iter().map(|(f, n)| json!({"menu": format!("{:?}", f.menu), "k": f.k, "programs": n})).collect::<Vec<_>>()))
         .set("ts_files_parsed", res.stats.extra.get("ts_files_parsed").copied().unwrap_or(0))
+        .set("configurations_compiled", res.stats.extra.get("configurations").copied().unwrap_or(0))
+        .set("configurations", json!(configurations(true).iter().map(|c| c.0).chain(["schema-descriptions"]).collect::<Vec<_>>()))
         .set("samples", json!(res.stats.samples))
         .set("known_findings_reobserved", json!(known))
         .set("exhaustive", true);
